@@ -257,7 +257,10 @@ def check_bay(case, ctx):
     with package(name):
         ev, evec = freq(K, M, tol=0, sparse_solver=case['sparse'], silent=True, num_eigvalues=k)
     try:
-        judge(ctx, name, K, M, active, ev, evec, k, True, sparse=case['sparse'], tol=1e-5, full_spectrum=False, val_tol=1e-4)
+        # penalty-connected bays are badly scaled (cond(K) up to 1e12 and more): a frequency is resolved, by either path and by the dense
+        # reference alike, only to eps * cond(K); the agreement demanded is 1e-4 or ten times that rounding level
+        vt = max(1e-4, 10 * 2.2e-16 * np.linalg.cond(Ka))
+        judge(ctx, name, K, M, active, ev, evec, k, True, sparse=case['sparse'], tol=1e-5, full_spectrum=False, val_tol=vt)
     except Violation as v:
         # listed finding R6b: the dense path runs QZ on the unscaled pair (-M, K); when K is positive definite only after diagonal
         # scaling (raw condition number beyond 1/eps: thin soft stiffener flanges next to 1e13-sized penalty terms) LAPACK reports the
